@@ -808,7 +808,7 @@ class Contract:
     def __init__(self, qname, params=None, ghosts=None, requires=None, returns=None, ensures=None,
                  raises=None, may_raise=(), raises_only=None, modifies=None, props=(), setup=None,
                  old=None, pure_result=False, notes='', concretize=None, replay=None, trusted=False,
-                 cover=True, inline=False, event=None, yields=None):
+                 cover=None, inline=False, event=None, yields=None):
         self.qname = qname
         self.params = params or {}
         self.ghosts = ghosts or {}
@@ -867,6 +867,8 @@ class Module:
         self.trusted_base = []
 
     def contract(self, qname, **kw):
+        if 'cover' not in kw and getattr(self, 'cover_default', None) is not None:
+            kw['cover'] = self.cover_default      # reachability cover (verify.verify_function): opt-in per module
         c = Contract(qname, **kw)
         if not c.props:
             c.props = (self.prop,)
